@@ -121,6 +121,17 @@ fn main() {
                 srch::tree_events(&t, &cmds, &a.s("out", "."), a.n("shards", 16) as usize, a.n("depth", 3) as u8, a.n("budget", 200000), a.n("cap", 60000) as usize)
             }
         }
+        "matecert" => {
+            let cmds: Vec<String> = match a.kv.get("scen") {
+                Some(p) => {
+                    let v: Value = serde_json::from_str(&std::fs::read_to_string(p).unwrap()).unwrap();
+                    v.as_array().unwrap().iter().map(|x| x["cmd"].as_str().unwrap().to_string()).collect()
+                }
+                None => Vec::new(),
+            };
+            srch::mate_certs(&t, &cmds, &a.s("out", "."), a.n("shards", 16) as usize, a.n("seed", 1), a.n("budget", 150000), a.n("lo", 3) as i64, a.n("hi", 6) as i64,
+                             a.n("randoms", 100) as usize, a.n("node-cap", 4000) as usize, -(a.n("claim-shorter", 0) as i64))
+        }
         "famreplay" => misc::family_replay(&t, &a.s("in", "")),
         "gamereplay" => misc::game_replay(&t, &a.s("in", "")),
         "keypairs" => misc::key_pairs(&t, &seeds(), &a.s("out", "."), a.n("shards", 16) as usize, a.n("seed", 1), a.n("playouts", 40) as usize, a.n("plies", 20) as usize),
